@@ -1,2 +1,150 @@
 #![allow(warnings, clippy::all, clippy::pedantic, clippy::nursery)]
+//@ module: backend::hotcold
 use super::*;
+use crate::error::verif_harness as vh;
+use crate::error::verif_harness::{MockBe, any_tpe, tpe_u8};
+use std::sync::atomic::Ordering::SeqCst;
+
+static HOT_DATA: [u8; 4] = [b'H', 1, 2, 3];
+static COLD_DATA: [u8; 4] = [b'C', 1, 2, 3];
+
+fn any_mock(present: bool, tag: u8, data: &'static [u8]) -> MockBe {
+    let mut m = MockBe::new(present, tag, data);
+    m.fail_write = kani::any();
+    m.fail_remove = kani::any();
+    m.lost_ack = kani::any();
+    m
+}
+
+/// I: for hot-eligible files, cold-present => hot-present with equal content; non-eligible (data packs) never in hot
+fn invariant(hot_eligible: bool, cold: &MockBe, hot: &MockBe) -> bool {
+    let (cp, hp) = (cold.present.load(SeqCst), hot.present.load(SeqCst));
+    if hot_eligible { !cp || (hp && hot.tag.load(SeqCst) == cold.tag.load(SeqCst)) } else { !hp }
+}
+
+//@ harness: c16_hotcold_step_with_faults
+//@ prop: C16
+//@ tier: quick
+//@ timeout: 600
+//@ kernel: HotColdBackend::{write_bytes, remove}
+//@ bound: one write_bytes or remove with symbolic (file type != config, cacheable, content tag); pre-state of the tracked file in both stores arbitrary subject to invariant I; each of the (up to two) inner store operations may fail without effect or take effect and then report failure (crash right after it); one tracked key (operations on other keys do not interact: both stores are keyed maps)
+//@ oracle: invariant I (cold-present => hot-present with identical content for key/snapshot/index/tree-pack files; data packs never in hot) holds after the step for every fault combination = at every crash point of every history (I is inductive); Ok => the cold store reflects the operation; inner calls carry the caller's (type,id,cacheable)
+//@ outside: config files (save_config / save_config_hot write them separately), equality of results with a single-store run, warm-up ordering inside threaded commands
+#[kani::proof]
+#[kani::unwind(6)]
+#[kani::stub(std::backtrace::Backtrace::capture, crate::error::verif_harness::stub_backtrace_capture)]
+pub(crate) fn c16_hotcold_step_with_faults() {
+    let tpe = any_tpe();
+    kani::assume(tpe != FileType::Config);
+    let cacheable: bool = kani::any();
+    let hot_eligible = cacheable || tpe != FileType::Pack;
+    let (cold_p, hot_p, cold_t, hot_t): (bool, bool, u8, u8) = (kani::any(), kani::any(), kani::any(), kani::any());
+    let cold = Arc::new(any_mock(cold_p, cold_t, &COLD_DATA));
+    let hot = Arc::new(any_mock(hot_p, hot_t, &HOT_DATA));
+    kani::assume(invariant(hot_eligible, &cold, &hot));
+    let be = HotColdBackend { be: cold.clone(), be_hot: hot.clone() };
+    let id0: u8 = kani::any();
+    let id = vh::mk_id(id0);
+    let is_write: bool = kani::any();
+    if is_write {
+        let payload: &'static mut [u8; 2] = Box::leak(Box::new(kani::any()));
+        let tag = payload[0];
+        let r = be.write_bytes(tpe, &id, cacheable, Bytes::from_static(&*payload).into());
+        if r.is_ok() {
+            assert!(cold.present.load(SeqCst) && cold.tag.load(SeqCst) == tag);
+            assert!(!hot_eligible || (hot.present.load(SeqCst) && hot.tag.load(SeqCst) == tag));
+            kani::cover!(hot_eligible, "hot-eligible write succeeded");
+            kani::cover!(!hot_eligible, "data pack write succeeded");
+        } else {
+            kani::cover!(hot.n_write.load(SeqCst) == 1 && cold.n_write.load(SeqCst) == 0, "crash between hot and cold write");
+        }
+        std::mem::forget(r);
+    } else {
+        let r = be.remove(tpe, &id, cacheable);
+        if r.is_ok() {
+            assert!(!cold.present.load(SeqCst));
+            assert!(!hot_eligible || !hot.present.load(SeqCst));
+        } else {
+            kani::cover!(cold.n_remove.load(SeqCst) == 1 && hot.n_remove.load(SeqCst) == 0, "crash between cold and hot remove");
+        }
+        std::mem::forget(r);
+    }
+    // the invariant holds whatever happened
+    assert!(invariant(hot_eligible, &cold, &hot));
+    // data packs never touch the hot store
+    if !hot_eligible { assert!(hot.mutations() == 0); }
+    // inner calls carry the caller's key
+    if cold.mutations() > 0 {
+        assert!(cold.last_tpe.load(SeqCst) == tpe_u8(tpe) && cold.last_id0.load(SeqCst) == id0 && cold.last_cacheable.load(SeqCst) == cacheable);
+    }
+    if hot.mutations() > 0 {
+        assert!(hot.last_tpe.load(SeqCst) == tpe_u8(tpe) && hot.last_id0.load(SeqCst) == id0 && hot.last_cacheable.load(SeqCst) == cacheable);
+    }
+    std::mem::forget(be); std::mem::forget(cold); std::mem::forget(hot);
+}
+
+//@ harness: c16_hotcold_routing
+//@ prop: C16
+//@ tier: quick
+//@ timeout: 600
+//@ kernel: HotColdBackend::{read_full, read_partial, list_with_size, needs_warm_up, warm_up, create}
+//@ bound: one call with symbolic (file type, cacheable, offset<=4, length<=4)
+//@ oracle: read_full is served by the hot store; read_partial by hot iff the file is hot-eligible (cacheable or not a pack) else by cold, with the caller's range; listings, needs_warm_up and warm_up are answered by the cold store only; create creates both stores, cold first
+#[kani::proof]
+#[kani::unwind(6)]
+#[kani::stub(std::backtrace::Backtrace::capture, crate::error::verif_harness::stub_backtrace_capture)]
+pub(crate) fn c16_hotcold_routing() {
+    let tpe = any_tpe();
+    let cacheable: bool = kani::any();
+    let hot_eligible = cacheable || tpe != FileType::Pack;
+    let mut c = MockBe::new(true, 0, &COLD_DATA);
+    c.warm = kani::any();
+    c.fail_create = kani::any();
+    let warm = c.warm;
+    let cold = Arc::new(c);
+    let hot = Arc::new(MockBe::new(true, 0, &HOT_DATA));
+    let be = HotColdBackend { be: cold.clone(), be_hot: hot.clone() };
+    let id = vh::mk_id(kani::any());
+    match kani::any::<u8>() % 5 {
+        0 => {
+            let r = be.read_full(tpe, &id).unwrap();
+            assert!(r[0] == b'H');
+            assert!(hot.n_read_full.load(SeqCst) == 1 && cold.n_read_full.load(SeqCst) == 0 && cold.n_read_partial.load(SeqCst) == 0);
+            kani::cover!(true, "read_full routed");
+            std::mem::forget(r);
+        }
+        1 => {
+            let (o, l): (u32, u32) = (kani::any(), kani::any());
+            kani::assume(o <= 4 && l <= 4 - o && l >= 1);
+            let r = be.read_partial(tpe, &id, cacheable, o, l).unwrap();
+            assert!(r.len() == l as usize);
+            if o == 0 { assert!(r[0] == if hot_eligible { b'H' } else { b'C' }); }
+            if hot_eligible {
+                assert!(hot.n_read_partial.load(SeqCst) == 1 && cold.n_read_partial.load(SeqCst) == 0);
+            } else {
+                assert!(hot.n_read_partial.load(SeqCst) == 0 && cold.n_read_partial.load(SeqCst) == 1);
+            }
+            kani::cover!(!hot_eligible, "data pack read from cold");
+            kani::cover!(hot_eligible, "read_partial from hot");
+            std::mem::forget(r);
+        }
+        2 => {
+            let r = be.list_with_size(tpe);
+            assert!(cold.n_list.load(SeqCst) == 1 && hot.n_list.load(SeqCst) == 0);
+            std::mem::forget(r);
+        }
+        3 => {
+            assert!(be.needs_warm_up() == warm);
+            let r = be.warm_up(tpe, &id);
+            assert!(cold.n_warm.load(SeqCst) == 1 && hot.n_warm.load(SeqCst) == 0);
+            std::mem::forget(r);
+        }
+        _ => {
+            let r = be.create();
+            if r.is_ok() { assert!(cold.n_create.load(SeqCst) == 1 && hot.n_create.load(SeqCst) == 1); }
+            else { assert!(hot.n_create.load(SeqCst) == 0); }
+            std::mem::forget(r);
+        }
+    }
+    std::mem::forget(be); std::mem::forget(cold); std::mem::forget(hot);
+}
